@@ -5,34 +5,48 @@
 (* REFERENCE, so the two ways a script changes a field parameter are                                            *)
 (*     AssignNew          mat.E = new_array                                                                     *)
 (*     MutateAndReassign  E_e[sel] *= 0.5 ; mat.E = E_e      (same object, new content)                          *)
-(* Both are assignments through the descriptor and must invalidate the cached law.  (Mutating the array          *)
-(* without assigning it again is outside the statement: nothing tells the material.)                             *)
+(* Both are assignments through the descriptor and must invalidate the cached law.  A third thing a script does  *)
+(*     MutateSource       E_e[sel] *= 0.5                    (nothing is assigned)                               *)
+(* tells the material nothing: WHICH content the next read shows is outside the statement (the content the        *)
+(* material was last told about, or the current one), but the stiffness and the compliance that are read must      *)
+(* still be those of ONE content - mutually inverse (Paired).  Defect = "alias_c" models a law whose stiffness IS   *)
+(* the caller's array while its compliance was computed when the array was handed over: rejected by TLC.           *)
 (* Defect = "skip_equal" models a descriptor that skips the notification when the assigned value compares         *)
 (* equal to the stored one - always true for the same object - and must be rejected by TLC.                        *)
 EXTENDS Integers, Sequences, TLC, Json
-CONSTANTS MaxOps, Defect, Emit
+CONSTANTS MaxOps, Defect, Emit,
+          WithSource   \* BOOLEAN: are modifications of the array behind the material's back part of the behaviours?
 VARIABLES content,   \* version of the content of the array object the material currently holds
           obj,       \* identity of that object
           dirty,     \* the material's update flag
           law,       \* content version the cached law was computed from (-1: none)
+          told,      \* content version at the last assignment (what the material has been told about)
           hist       \* operations so far
-vars == <<content, obj, dirty, law, hist>>
+vars == <<content, obj, dirty, law, told, hist>>
 
-Init == content = 0 /\ obj = 0 /\ dirty = TRUE /\ law = -1 /\ hist = <<>>
+Init == content = 0 /\ obj = 0 /\ dirty = TRUE /\ law = -1 /\ told = 0 /\ hist = <<>>
 Bound == Len(hist) < MaxOps
 AssignNew == /\ Bound /\ obj' = obj + 1 /\ content' = content + 1 /\ dirty' = TRUE
-             /\ hist' = Append(hist, "AssignNew") /\ UNCHANGED law
+             /\ told' = content' /\ hist' = Append(hist, "AssignNew") /\ UNCHANGED law
 MutateAndReassign == /\ Bound /\ content' = content + 1 /\ obj' = obj
                      /\ dirty' = IF Defect = "skip_equal" THEN dirty ELSE TRUE
-                     /\ hist' = Append(hist, "MutateAndReassign") /\ UNCHANGED law
+                     /\ told' = content' /\ hist' = Append(hist, "MutateAndReassign") /\ UNCHANGED law
+MutateSource == /\ Bound /\ WithSource /\ content' = content + 1
+                /\ hist' = Append(hist, "MutateSource") /\ UNCHANGED <<obj, dirty, law, told>>
 Read == /\ Bound
         /\ IF dirty THEN law' = content /\ dirty' = FALSE ELSE UNCHANGED <<law, dirty>>
-        /\ hist' = Append(hist, "Read") /\ UNCHANGED <<content, obj>>
-Next == AssignNew \/ MutateAndReassign \/ Read
+        /\ hist' = Append(hist, "Read") /\ UNCHANGED <<content, obj, told>>
+Next == AssignNew \/ MutateAndReassign \/ MutateSource \/ Read
 Spec == Init /\ [][Next]_vars
 
-(* the law that is read is the law of the parameters as they are *)
-ReadIsCurrent == [][Read => law' = content']_vars
-FlagSound == (~dirty) => law = content
+(* the law that is read is the law of the parameters as they are - of the content the material was told about, or of the   *)
+(* a content the array had since then when it was modified behind the material's back (a parameter stored by reference shows  *)
+(* the content of the last re-computation, a copied matrix the one handed over); nothing was modified => the current one       *)
+ReadIsCurrent == [][Read => (told' <= law' /\ law' <= content')]_vars
+FlagSound == (~dirty /\ told = content) => law = content
+(* stiffness and compliance of one read come from one content *)
+CSeen == IF Defect = "alias_c" THEN content ELSE law
+SSeen == law
+Paired == (law # -1) => CSeen = SSeen
 EmitOK == Emit => (Len(hist) = MaxOps => PrintT(<<"OPS", ToJson([ops |-> hist])>>))
 =============================================================================
